@@ -75,7 +75,7 @@ func (p *Property) owns(clause string) bool {
 		return true
 	}
 	switch clause {
-	case "crash", "hang", "internal":
+	case "crash", "hang", "internal", "livelock":
 		return true
 	}
 	for _, o := range p.Owns {
@@ -186,6 +186,10 @@ func TestVerif(t *testing.T) {
 	}
 	if *fMode == "replay" {
 		os.Exit(replayMain(p))
+	}
+	if *fMode == "hash" {
+		hashMain(p)
+		return
 	}
 	exploreMain(p)
 }
@@ -726,4 +730,62 @@ func renderTrace(ep *Episode) []string {
 		out = append(out, fmt.Sprintf("VIOL %s @%d: %s", v.Clause, v.Seq, v.Msg))
 	}
 	return out
+}
+
+
+// hashMain prints one line per episode: seed and a hash of everything recorded
+// (determinism self-test, DESIGN §7.1).
+func hashMain(p *Property) {
+	n := *fMaxEp
+	if n == 0 {
+		n = 50
+	}
+	for i := 0; i < n; i++ {
+		seed := mix(*fSeed, uint64(*fShard), uint64(i))
+		r := simrt.NewRand(seed)
+		cfg, pr := p.Gen(r, *fTier)
+		cfg.Prop = p.ID
+		ep := runEpisode(p, cfg, pr, seed, nil, false)
+		fmt.Printf("HASH %s %d %016x steps=%d verdict=%s\n", p.ID, seed, episodeHash(ep), ep.Res.Steps, ep.Res.Verdict)
+	}
+}
+
+func episodeHash(ep *Episode) uint64 {
+	h := uint64(1469598103934665603)
+	mixin := func(x uint64) { h = (h ^ x) * 1099511628211 }
+	mixin(ep.Res.Steps)
+	mixin(uint64(ep.Res.Verdict))
+	for _, t := range ep.Res.Tape {
+		mixin(uint64(t))
+	}
+	for _, c := range ep.W.rec.calls {
+		mixin(uint64(c.K))
+		mixin(uint64(c.Sub + 7))
+		mixin(c.Inv)
+		mixin(c.Ret)
+		mixin(uint64(c.Val + 3))
+		for i := 0; i < len(c.Err); i++ {
+			mixin(uint64(c.Err[i]))
+		}
+		for i := 0; i < len(c.Str); i++ {
+			mixin(uint64(c.Str[i]))
+		}
+	}
+	for _, f := range ep.W.rec.fns {
+		mixin(f.Seq)
+		mixin(uint64(f.Sub + 1))
+		mixin(uint64(f.Task))
+	}
+	for _, q := range ep.W.rec.qevs {
+		mixin(q.Seq)
+		mixin(uint64(q.Sub + 5))
+		mixin(uint64(q.K))
+	}
+	for _, v := range ep.Viols {
+		for i := 0; i < len(v.Clause); i++ {
+			mixin(uint64(v.Clause[i]))
+		}
+		mixin(v.Seq)
+	}
+	return h
 }
